@@ -810,7 +810,8 @@ def check(prop, tier, only_jobs=None, keep=False):
                 fh.write("# --- verifier trace (tail) ---\n")
                 for t in o.get("trace_tail", []):
                     fh.write("#   %s\n" % t)
-            if harness and not k:
+            ghost_only = "(ghost)" in o["description"]  # decided on ghost state of a model: nothing for the real code to reproduce
+            if harness and not k and not ghost_only:
                 try:
                     exe = native_build(r["unit"], workdir)
                     verdict, transcript = native_replay(exe, harness, o.get("trace_vals", []), replay_path)
